@@ -5,7 +5,7 @@ set -e
 unit=$1; file=$2; from=$3; to=$4
 d=$(mktemp -d /tmp/vfmut.XXXX)
 mkdir -p $d/repo $d/out
-cp -r /repo/lib $d/repo/lib; cp /repo/Cargo.toml /repo/Cargo.lock $d/repo/
+base=${VERIF_BASE:-/repo}; cp -r $base/lib $d/repo/lib; cp $base/Cargo.toml $base/Cargo.lock $d/repo/ 2>/dev/null
 python3 - "$d/repo/$file" "$from" "$to" <<'PY'
 import sys,re
 p,frm,to=sys.argv[1:4]
